@@ -3538,6 +3538,10 @@ impl Machine {
         loop {
             match iter.read_char() {
                 Some(Ok(c)) => {
+                    if c == '\n' {
+                        stream.add_lines_read(1);
+                    }
+
                     self.machine_st.unify_char(c, addr);
                     break;
                 }
@@ -3620,6 +3624,10 @@ impl Machine {
                     }
                 }
             }
+
+            // the newlines consumed count as lines read, as they do for read_term
+            let mut counted_stream = stream;
+            counted_stream.add_lines_read(string.matches('\n').count());
         };
 
         let output = self.deref_register(3);
@@ -3720,6 +3728,10 @@ impl Machine {
 
             match result {
                 Some(Ok(c)) => {
+                    if c == '\n' {
+                        stream.add_lines_read(1);
+                    }
+
                     self.machine_st
                         .unify_fixnum(Fixnum::build_with(u32::from(c)), addr);
                     break;
